@@ -26,6 +26,7 @@ _X86_FULL.update({m: {"shims": ("struct",)} for m in ("xdsl.dialects.x86.ops", "
                                                       "xdsl.dialects.x86.attributes", "xdsl.dialects.x86.assembly")})
 
 CHECKS = {
+    "C09": {"module": "vx.checks.c09", "instrument": {}, "maxtasksperchild": 60},
     "C10": {"module": "vx.checks.c10", "instrument": {"full": {"xdsl.ir.core": {"shims": ()}, "xdsl.irdl.operations": {"shims": ()}}}, "maxtasksperchild": 40},
     "C23": {"module": "vx.checks.c23", "instrument": {}, "maxtasksperchild": 60},
     "C21": {"module": "vx.checks.c21", "instrument": {"full": _X86_FULL}, "maxtasksperchild": 6},
